@@ -58,7 +58,19 @@ func emit(v any) {
 	outMu.Unlock()
 }
 
+// wide (set per process by -wide): documents 1..3 share one timestamp and carry random parts that span the whole
+// uint64 range, as the proxy's rand.Uint64()<<16 + index does: every comparison of IDs has to be a real
+// three-way comparison (differences wrap around), and the merge of partial results has to bring equal IDs of
+// different fractions next to each other to drop the repeats.
+var wide = flag.Bool("wide", false, "")
+
 func midOf(d int) uint64 {
+	if *wide {
+		if d <= 3 {
+			return 2
+		}
+		return 3
+	}
 	switch d {
 	case 1:
 		return 1
@@ -66,6 +78,13 @@ func midOf(d int) uint64 {
 		return 2
 	}
 	return 3
+}
+
+func ridOf(d int) uint64 {
+	if *wide {
+		return [...]uint64{0, 0x1000000000000000 + 1, 0x7000000000000000 + 2, 0xD000000000000000 + 3, 0x4000000000000000 + 4}[d]
+	}
+	return uint64(100 + d)
 }
 
 func grpOf(d int) string {
@@ -86,7 +105,7 @@ func doc(d int) env.Doc {
 	if len(xs) > 0 {
 		tok["x"] = xs
 	}
-	return env.Doc{MID: midOf(d), RID: uint64(100 + d), Tok: tok,
+	return env.Doc{MID: midOf(d), RID: ridOf(d), Tok: tok,
 		Body: fmt.Sprintf(`{"doc":%d,"payload":"%s"}`, d, strings.Repeat("x", d*3))}
 }
 
@@ -102,7 +121,7 @@ func check(e *env.Env, o Obs) string {
 	// expected ID list: stored docs ordered by (mid, rid) desc
 	want := make([][2]uint64, 0, len(o.Stored))
 	for _, d := range o.Stored {
-		want = append(want, [2]uint64{midOf(d), uint64(100 + d)})
+		want = append(want, [2]uint64{midOf(d), ridOf(d)})
 	}
 	sort.Slice(want, func(i, j int) bool {
 		if want[i][0] != want[j][0] {
@@ -162,7 +181,7 @@ func check(e *env.Env, o Obs) string {
 			return "search error: " + err.Error()
 		}
 		if stored[d] {
-			if len(rr.IDs) != 1 || rr.IDs[0] != [2]uint64{midOf(d), uint64(100 + d)} {
+			if len(rr.IDs) != 1 || rr.IDs[0] != [2]uint64{midOf(d), ridOf(d)} {
 				return fmt.Sprintf("search k:d%d got %v want exactly its own id", d, rr.IDs)
 			}
 		} else if len(rr.IDs) != 0 {
